@@ -59,7 +59,8 @@ class Lib:
     # state helpers
     # ==========================================================================================
     def touch(self, it, loc):
-        """Instantiate the typing part of the store invariant for `loc` on the entry state."""
+        """Instantiate the location-quantified assumptions (typing part of the store invariant,
+        stated preconditions) for a location the path touches."""
         ctx = it.ctx
         key = loc.get_id()
         if key in ctx.__dict__.setdefault("_typed", {}):
@@ -67,25 +68,26 @@ class Lib:
         ctx._typed[key] = loc
         for fn in ctx.__dict__.get("forall_locs", []):
             ctx.assume(fn(loc))
-        fs0 = ctx.__dict__.get("fs0")
-        if fs0 is None:
-            return
-        st = z3.Select(fs0, loc)
-        kind = T.l_kind(loc)
-        dirs0 = ctx.dirs0
-        facts = [
-            z3.Implies(kind == T.K_PIDREF,
-                       z3.Or(T.is_Absent(st), z3.And(T.is_Data(st), T.ishex(T.f_data(st))))),
-            z3.Implies(kind == T.K_CIDREF, z3.Or(T.is_Absent(st), T.is_LinesF(st))),
-            z3.Implies(z3.Or(kind == T.K_OBJ, kind == T.K_META), z3.Or(T.is_Absent(st),
-                                                                        T.is_Data(st))),
-            z3.Implies(T.present(st), z3.Select(dirs0, self.parent_dir_of_loc(loc))),
-            # no file of the working directory is named like a hex digest (cwd-relative fallbacks
-            # of _get_hashstore_data_object_path / _get_hashstore_metadata_path find nothing)
-            z3.Implies(z3.And(kind == T.K_EXT, T.ishex(T.l_k1(loc))), T.is_Absent(st)),
-        ]
-        for f in facts:
-            ctx.assume(f)
+
+    def typing(self, fs0, dirs0):
+        """Typing part of the store invariant for the entry state, as a fact about every
+        location."""
+        def fact(loc):
+            st = z3.Select(fs0, loc)
+            kind = T.l_kind(loc)
+            return z3.And(
+                z3.Implies(kind == T.K_PIDREF,
+                           z3.Or(T.is_Absent(st), z3.And(T.is_Data(st), T.ishex(T.f_data(st))))),
+                z3.Implies(kind == T.K_CIDREF, z3.Or(T.is_Absent(st), T.is_LinesF(st))),
+                z3.Implies(z3.Or(kind == T.K_OBJ, kind == T.K_META),
+                           z3.Or(T.is_Absent(st), T.is_Data(st))),
+                # a file exists only inside an existing directory
+                z3.Implies(T.present(st), z3.Select(dirs0, self.parent_dir_of_loc(loc))),
+                # no file of the working directory is named like a hex digest (the cwd-relative
+                # fallbacks of the path lookups find nothing)
+                z3.Implies(z3.And(kind == T.K_EXT, T.ishex(T.l_k1(loc))), T.is_Absent(st)),
+            )
+        return fact
 
     def fs_get(self, it, loc):
         self.touch(it, loc)
